@@ -427,6 +427,25 @@ func stepIP(p *an.Prog) an.StepFn {
 			}
 		case *ssa.Parameter:
 			fn := x.Parent()
+			if fn != nil && fn.Object() == nil && fn.Parent() != nil {
+				// a local closure that is only ever called directly: its call sites are all there are
+				if sites, ok := onlyCalled(p, fn); ok {
+					var out []ssa.Value
+					for i, pp := range fn.Params {
+						if pp == x {
+							for _, cs := range sites {
+								if i < len(cs.Call.Args) {
+									out = append(out, cs.Call.Args[i])
+								}
+							}
+						}
+					}
+					if len(out) > 0 {
+						return out
+					}
+				}
+				return nil
+			}
 			if fn == nil || fn.Object() == nil || (fn.Object().Exported() && fn.Signature.Recv() == nil) {
 				return nil // exported functions have callers we cannot see
 			}
